@@ -31,7 +31,7 @@ Section Spec.
     end.
 
   (* sequencing: continue only after Normal *)
-  Definition seq (o : ores) (k : val -> state -> ores) : ores :=
+  Definition oseq (o : ores) (k : val -> state -> ores) : ores :=
     match o with
     | OR (ONormal v) s => k v s
     | o => o
@@ -79,13 +79,13 @@ Section Spec.
     match others with
     | [] =>
       match els with
-      | Some b => seq (blk b st) (fun _ s => OR (ONormal VNull) s)
+      | Some b => oseq (blk b st) (fun _ s => OR (ONormal VNull) s)
       | None => OR (ONormal VNull) st
       end
     | (ce, b) :: tl =>
       ebind (ev st ce) (fun cv s1 =>
         match cv with
-        | VBool true => seq (blk b s1) (fun _ s => OR (ONormal VNull) s)
+        | VBool true => oseq (blk b s1) (fun _ s => OR (ONormal VNull) s)
         | VBool false => o_others blk tl els s1
         | _ => OR (ORaise (ERun E_EXPRTYPE)) s1
         end)
@@ -105,7 +105,7 @@ Section Spec.
     | [] => OR (ONormal last) st
     | (line, s) :: tl =>
       if is_def s then o_block_go exec tl st last
-      else seq (exec (set_line st line) s) (fun v s1 => o_block_go exec tl s1 v)
+      else oseq (exec (set_line st line) s) (fun v s1 => o_block_go exec tl s1 v)
     end.
 
   Fixpoint o_stmt (k : nat) (st : state) (s : stmt) {struct k} : ores :=
@@ -118,7 +118,7 @@ Section Spec.
       | SBranch c t others els =>
         ebind (ev st c) (fun cv s1 =>
           match cv with
-          | VBool true => seq (o_block k' s1 t) (fun _ s => OR (ONormal VNull) s)
+          | VBool true => oseq (o_block k' s1 t) (fun _ s => OR (ONormal VNull) s)
           | VBool false => o_others (fun b s => o_block k' s b) others els s1
           | _ => OR (ORaise (ERun E_EXPRTYPE)) s1
           end)
